@@ -28,7 +28,9 @@ theorem adaptStep_objs (acc : List String × St) (adr : String) : (adaptStep acc
   · split
     · rfl
     · have := findGroupOnDevice_objs s ‹Nat›
-      split <;> simp_all
+      split
+      · simp_all
+      · simpa [St.objs] using this
 
 theorem adaptGroups_objs (st : St) (lb : List String) : (adaptGroups st lb).2.objs = st.objs := by
   unfold adaptGroups
